@@ -351,4 +351,25 @@ def assemble {V} (w : NsWorld V) (builtinsArg : Option Nat) (vars : Dict V) (loc
       ((((nsTarget w builtinsArg).1.read (nsTarget w builtinsArg).2).update vars).update (locals_.getD []))⟩,
    (nsTarget w builtinsArg).2)
 
+/-! ### Undefined names (`except NameError` in `eval`) -/
+
+/-- How the evaluation of a bare name ends. -/
+inductive NameOutcome (V : Type) where
+  | bound (v : V)
+  | attributeError (name : String)     -- AttributeError whose message names the undefined name
+  deriving DecidableEq, Repr
+
+/-- `except NameError as e: suggestions = self.get_closest_match(e.name)` — whatever `difflib` suggests (no name,
+    one name, several names differing only by case) the code raises AttributeError naming `e.name`; only the
+    wording differs ("Object is empty …" / "Did you mean: '<first suggestion>'?"). -/
+def undefinedOutcome {V : Type} (name : String) : List String → NameOutcome V
+  | [] => .attributeError name
+  | _ :: _ => .attributeError name
+
+/-- Evaluating the name `name` in the assembled namespace `ns`; `suggestions` = `get_closest_match(name)`. -/
+def evalName {V : Type} (ns : Dict V) (suggestions : List String) (name : String) : NameOutcome V :=
+  match ns.get name with
+  | some v => .bound v
+  | none => undefinedOutcome name suggestions
+
 end Fsic.EvalIdx
